@@ -309,11 +309,40 @@ enum ReplayOutcome {
     Error,
 }
 
+/// wait for a child with a wall-clock limit; None = it had to be killed (hang)
+fn wait_limited(mut child: std::process::Child, limit_s: u64) -> Option<std::process::Output> {
+    let start = Instant::now();
+    loop {
+        match child.try_wait() {
+            Ok(Some(_)) => return child.wait_with_output().ok(),
+            Ok(None) => {
+                if start.elapsed().as_secs() >= limit_s {
+                    let _ = child.kill();
+                    let _ = child.wait();
+                    return None;
+                }
+                std::thread::sleep(std::time::Duration::from_millis(20));
+            }
+            Err(_) => return None,
+        }
+    }
+}
+
 fn run_replay_child(path: &str) -> (ReplayOutcome, String) {
-    let o = std::process::Command::new(self_exe()).arg("replay-inner").arg(path).output();
+    let child = std::process::Command::new(self_exe())
+        .arg("replay-inner")
+        .arg(path)
+        .stdout(std::process::Stdio::piped())
+        .stderr(std::process::Stdio::null())
+        .spawn();
+    let o = match child {
+        Err(_) => return (ReplayOutcome::Error, String::new()),
+        Ok(c) => wait_limited(c, 120),
+    };
     match o {
-        Err(_) => (ReplayOutcome::Error, String::new()),
-        Ok(o) => {
+        // a replay that does not terminate reproduces a hang
+        None => (ReplayOutcome::Crashed, "REPRODUCED (the replay did not terminate within 120 s and was killed)\n".to_string()),
+        Some(o) => {
             let s = String::from_utf8_lossy(&o.stdout).to_string();
             match o.status.code() {
                 Some(1) => (ReplayOutcome::Reproduced, s),
@@ -408,8 +437,33 @@ fn check(args: &[String]) -> i32 {
     let mut samples: Vec<Value> = Vec::new();
     let mut harness_errors: Vec<String> = Vec::new();
     let mut digest = 0u64;
+    // stderr of a worker is small (panic hook is quiet); draining it after exit is safe
+    let hard_limit = deadline_s + 60;
+    let t0 = Instant::now();
     for (w, from, to, out, child) in children {
-        let o = child.wait_with_output();
+        let left = hard_limit.saturating_sub(t0.elapsed().as_secs()).max(1);
+        let o: Result<std::process::Output, String> = match wait_limited(child, left) {
+            Some(o) => Ok(o),
+            None => Err("killed".into()),
+        };
+        if o.is_err() {
+            // a worker that had to be killed hung inside one run (an operation that never returns
+            // and calls no user code escapes the in-process watchdog)
+            let progress = std::fs::read_to_string(format!("{}.progress", out)).ok().and_then(|s| s.trim().parse::<u64>().ok());
+            if let Some(idx) = progress {
+                let t = gen::gen(&prop, seed, idx, tier);
+                violations.push(json!({
+                    "property": prop.as_str(),
+                    "oracle": "process_hang", "step": -1, "op": "?", "class": "crash",
+                    "detail": format!("worker process did not finish run {} (slice {}..{}) within the wall-clock limit and was killed: an operation does not terminate", idx, from, to),
+                    "orig_run_index": idx, "shrink_tests": 0, "orig_events": t.events.len(),
+                    "trace": t.to_json(),
+                }));
+            } else {
+                harness_errors.push(format!("worker {} had to be killed and left no progress file", w));
+            }
+            continue;
+        }
         let status = match &o {
             Ok(o) => o.status,
             Err(e) => {
@@ -425,9 +479,8 @@ fn check(args: &[String]) -> i32 {
             match (crashed, progress) {
                 (true, Some(idx)) => {
                     let t = gen::gen(&prop, seed, idx, tier);
-                    let crash_prop = if prop == "C18" { "C18" } else { "C03" };
                     violations.push(json!({
-                        "property": if prop == "C03" || prop == "C18" || prop == "C05" { prop.as_str() } else { crash_prop },
+                        "property": prop.as_str(),
                         "oracle": "process_crash", "step": -1, "op": "?", "class": "crash",
                         "detail": format!("worker process died by a signal while executing run {} (slice {}..{}): {}", idx, from, to, stderr.lines().last().unwrap_or("")),
                         "orig_run_index": idx, "shrink_tests": 0, "orig_events": t.events.len(),
